@@ -168,9 +168,9 @@ func init() {
 			"hosts given to FlattenProperties carry a specific type name (the generic names are exercised through the typed functions)"},
 		Bound: func(tier string) string {
 			if tier == "thorough" {
-				return "single positions complete; addressing lists of length <= 4"
+				return "single positions complete; addressing lists of length <= 4; addressing lists of 8..65 members of distinct ids (3 without id); the same identities in every ordered pair of addressing lists"
 			}
-			return "single positions complete; addressing lists of length <= 3"
+			return "single positions complete; addressing lists of length <= 3; addressing lists of 8..65 members of distinct ids (3 without id); the same identities in every ordered pair of addressing lists"
 		},
 		DeadlineQuick: 5 * time.Minute,
 		Run:           c16Run,
@@ -383,5 +383,98 @@ func c16Run(c *engine.Ctx) {
 			}
 			rec(nil)
 		}
+		judgeList := func(f universe.Field, es []c16Entry, what string) func(t *engine.T, got ap.Item, key func(string) string) {
+			return func(t *engine.T, got ap.Item, key func(string) string) {
+				kept, dedup := c16ExpectList(es)
+				d := c16Desc(got)
+				if d == "["+strings.Join(kept, " ")+"]" || d == "["+strings.Join(dedup, " ")+"]" {
+					return
+				}
+				sym := "wrong-result"
+				for _, e := range es {
+					if strings.Contains(e.name, "noid") && !strings.Contains(d, e.want) {
+						sym = "idless-entry-lost"
+					}
+				}
+				if len(d) > 600 {
+					d = d[:600] + "..."
+				}
+				t.Fail(key(what+"|"+sym), "%s (%s) became %s", f.Term, what, d)
+			}
+		}
+		setList := func(f universe.Field, es []c16Entry) func(ev reflect.Value) {
+			return func(ev reflect.Value) {
+				col := make(ap.ItemCollection, len(es))
+				for i, e := range es {
+					col[i] = e.mk()
+				}
+				ev.Field(f.Index).Set(reflect.ValueOf(col))
+			}
+		}
+		// long addressing lists: N members of pairwise distinct ids in rotating shapes, three of them without an id
+		for _, pos := range c16Lists {
+			f := *st.Field(pos)
+			for _, N := range []int{8, 15, 16, 17, 18, 31, 32, 33, 64, 65} {
+				N := N
+				es := c16LongEntries(N)
+				class := "C16|" + h.name + "|" + f.Term
+				c.Do(class, func() string {
+					return fmt.Sprintf("%s with %s = %d members of distinct ids (3 without id)", h.name, f.Term, N)
+				}, func(t *engine.T) {
+					t.Distinct(true)
+					c16Check(t, h, f.Term, setList(f, es), judgeList(f, es, fmt.Sprintf("long=%d", N)))
+				})
+			}
+		}
+		// the same identities in two different addressing lists: each list is flattened on its own
+		for _, p1 := range c16Lists {
+			for _, p2 := range c16Lists {
+				if p1 == p2 {
+					continue
+				}
+				f1, f2 := *st.Field(p1), *st.Field(p2)
+				l1 := []c16Entry{entries[2], entries[1], entries[7]} // *obj-a, iri-b, *obj-noid
+				l2 := []c16Entry{entries[0], entries[3], entries[8]} // iri-a, *obj-b, *obj-noid2
+				class := "C16|" + h.name + "|" + f1.Term
+				c.Do(class, func() string {
+					return fmt.Sprintf("%s with %s = [*obj-a, iri-b, *obj-noid] and %s = [iri-a, *obj-b, *obj-noid2]", h.name, f1.Term, f2.Term)
+				}, func(t *engine.T) {
+					t.Distinct(true)
+					both := func(ev reflect.Value) { setList(f1, l1)(ev); setList(f2, l2)(ev) }
+					c16Check(t, h, f1.Term, both, judgeList(f1, l1, "shared-with-"+f2.Term))
+					c16Check(t, h, f2.Term, both, judgeList(f2, l2, "shared-with-"+f1.Term))
+				})
+			}
+		}
 	}
+}
+
+// c16LongEntries builds n entries of pairwise distinct ids in rotating shapes; positions 2, n/2 and n-1 hold objects without id.
+func c16LongEntries(n int) []c16Entry {
+	name := func(s string) ap.NaturalLanguageValues {
+		return ap.NaturalLanguageValues{{Ref: "-", Value: ap.Content(s)}}
+	}
+	var es []c16Entry
+	for i := 0; i < n; i++ {
+		i := i
+		id := ap.IRI(fmt.Sprintf("https://example.com/long/%d", i))
+		var e c16Entry
+		switch {
+		case i == 2 || i == n/2 || i == n-1:
+			e = c16Entry{name: fmt.Sprintf("*obj-noid#%d", i), mk: func() ap.Item { return &ap.Object{Type: ap.NoteType, Name: name(fmt.Sprintf("anonymous %d", i))} }}
+		case i%4 == 0:
+			e = c16Entry{name: fmt.Sprintf("iri#%d", i), ident: string(id), mk: func() ap.Item { return id }}
+		case i%4 == 1:
+			e = c16Entry{name: fmt.Sprintf("*obj#%d", i), ident: string(id), want: "iri:" + string(id), mk: func() ap.Item { return &ap.Object{ID: id, Type: ap.NoteType, Name: name("x")} }}
+		case i%4 == 2:
+			e = c16Entry{name: fmt.Sprintf("*actor#%d", i), ident: string(id), want: "iri:" + string(id), mk: func() ap.Item { return &ap.Actor{ID: id, Type: ap.PersonType} }}
+		default:
+			e = c16Entry{name: fmt.Sprintf("*link#%d", i), ident: string(id), mk: func() ap.Item { return &ap.Link{ID: id, Type: ap.MentionType, Href: id + "/h"} }}
+		}
+		if e.want == "" {
+			e.want = c16Desc(e.mk())
+		}
+		es = append(es, e)
+	}
+	return es
 }
